@@ -362,6 +362,32 @@ Definition read_meta (impl_uid impl_name : str) (b : bytes) : outcome (meta * by
     end
   end.
 
+(** * Debug builds: overflow checks in [calculate_information_group_length]
+    The model above writes the u32 arithmetic out as wrap-around (release builds). With overflow
+    checks (debug builds, and the harness build) the same expressions panic instead:
+    [x.len() as u32 + 1] when the truncated length is 0xFFFFFFFF, and the chain of additions when
+    a partial sum reaches 2^32 (all terms are non-negative: iff the total does). *)
+Definition len_ovf (n : N) : bool := u32 n =? 4294967295.
+Definition opt_ovf (o : option str) : bool := match o with Some s => len_ovf (slen s) | None => false end.
+Definition calc_total (t : meta) : N :=
+  14 + 8 + dicom_len (m_sop_class t) + 8 + dicom_len (m_sop_inst t) + 8 + dicom_len (m_ts t)
+  + 8 + dicom_len (m_impl_class t)
+  + opt_len (m_impl_ver t) + opt_len (m_src_ae t) + opt_len (m_snd_ae t) + opt_len (m_rcv_ae t)
+  + opt_len (m_priv_creator t)
+  + match m_priv_info t with Some x => 12 + even_len (u32 (blen x)) | None => 0 end.
+Definition calc_overflows (t : meta) : bool :=
+  len_ovf (slen (m_sop_class t)) || len_ovf (slen (m_sop_inst t)) || len_ovf (slen (m_ts t))
+  || len_ovf (slen (m_impl_class t)) || opt_ovf (m_impl_ver t) || opt_ovf (m_src_ae t) || opt_ovf (m_snd_ae t)
+  || opt_ovf (m_rcv_ae t) || opt_ovf (m_priv_creator t)
+  || match m_priv_info t with Some x => len_ovf (blen x) | None => false end
+  || (4294967296 <=? calc_total t).
+(* [read_from] as a debug build runs it: [build] ends with [update_information_group_length] *)
+Definition read_meta_dbg (impl_uid impl_name : str) (b : bytes) : outcome (meta * bytes) :=
+  match read_meta impl_uid impl_name b with
+  | Ok (t, r) => if calc_overflows t then Panic 1 else Ok (t, r)
+  | other => other
+  end.
+
 (** * Equality of tables ([PartialEq]): trailing white space and NULs are ignored *)
 Definition trim_pad (s : str) : str :=
   rev ((fix go (r : str) := match r with c :: r' => if is_ws c || (c =? 0) then go r' else r | [] => [] end) (rev s)).
@@ -508,7 +534,7 @@ Definition check_case (c : case) : bool :=
        | _ => true
        end
   | CRead iu inm b r =>
-    omap_eqb (fun x y => meta_ideqb (fst x) (fst y) && list_eqb N.eqb (snd x) (snd y)) (read_meta iu inm b) r
+    omap_eqb (fun x y => meta_ideqb (fst x) (fst y) && list_eqb N.eqb (snd x) (snd y)) (read_meta_dbg iu inm b) r
   | CPreamble iu inm file k opt p q =>
     open_agrees (open_by_path iu inm opt file) p && open_agrees (open_by_reader iu inm opt file) q
   | CEq a b eq => Bool.eqb (meta_eqb a b) eq
